@@ -79,12 +79,14 @@ pub fn explore_unit(name: impl Into<String>, desc: impl Into<String>, bounds: Bo
 
 #[macro_export]
 macro_rules! scen {
-    ([$($cap:ident),*] |$cx:ident| $body:block) => {
+    ([$($cap:ident),*] |$cx:ident| $body:block) => {{
+        // captured values are cloned into the closure, the originals stay usable
+        $(let $cap = $cap.clone();)*
         std::sync::Arc::new(move |$cx: $crate::world::Ctx| -> futures::future::LocalBoxFuture<'static, $crate::world::ScenarioOut> {
             $(let $cap = $cap.clone();)*
             Box::pin(async move $body)
         })
-    };
+    }};
     (|$cx:ident| $body:block) => {
         $crate::scen!([] |$cx| $body)
     };
